@@ -113,7 +113,7 @@ impl Api {
 // ======================================================================
 // Engine construction
 
-pub trait Mk: Engine + Sized + 'static {
+pub trait Mk: Engine + Sized + Send + 'static {
     fn mk() -> Self;
 }
 impl Mk for Naive {
@@ -401,7 +401,7 @@ fn enc_e<E: Mk>(
     r: usize,
     size: usize,
     work: Option<EncoderWork>,
-) -> Result<Box<dyn DynEnc>, Error> {
+) -> Result<Box<dyn DynEnc + Send>, Error> {
     Ok(match rate {
         RateKind::High => Box::new(RE(
             HighRateEncoder::<E>::new(k, r, size, E::mk(), work)?,
@@ -424,7 +424,7 @@ fn dec_e<E: Mk>(
     r: usize,
     size: usize,
     work: Option<DecoderWork>,
-) -> Result<Box<dyn DynDec>, Error> {
+) -> Result<Box<dyn DynDec + Send>, Error> {
     Ok(match rate {
         RateKind::High => Box::new(RD(
             HighRateDecoder::<E>::new(k, r, size, E::mk(), work)?,
@@ -447,7 +447,7 @@ pub fn make_enc(
     r: usize,
     size: usize,
     work: Option<EncoderWork>,
-) -> Result<Box<dyn DynEnc>, Error> {
+) -> Result<Box<dyn DynEnc + Send>, Error> {
     match api {
         Api::Wrapper => Ok(Box::new(WE(ReedSolomonEncoder::new(k, r, size)?))),
         Api::Rate(rate, eng) => match eng {
@@ -472,7 +472,7 @@ pub fn make_dec(
     r: usize,
     size: usize,
     work: Option<DecoderWork>,
-) -> Result<Box<dyn DynDec>, Error> {
+) -> Result<Box<dyn DynDec + Send>, Error> {
     match api {
         Api::Wrapper => Ok(Box::new(WD(ReedSolomonDecoder::new(k, r, size)?))),
         Api::Rate(rate, eng) => match eng {
